@@ -18,7 +18,9 @@ import z3
 
 from .model import psum, IntS
 
-TIMEOUT_MS = 20000
+import os
+TIMEOUT_MS = int(os.environ.get("QVC_C_TIMEOUT_MS", "20000"))
+MBQI = os.environ.get("QVC_C_MBQI", "0") == "1"
 
 
 def _walk(e, seen, out_psum, out_idx, bound_depth=0):
@@ -61,22 +63,22 @@ def _walk_q(e, seen, out_psum, out_idx):
                 stack.extend(x.children())
 
 
-_gcache = {}
+_gcache = {}     # id -> (expr kept alive, bool); ids are only unique among live ASTs, so the expr is pinned
 
 
 def _ground(x):
     i = x.get_id()
     r = _gcache.get(i)
     if r is not None:
-        return r
+        return r[1]
     if z3.is_var(x):
-        r = False
+        g = False
     elif z3.is_quantifier(x):
-        r = False
+        g = False
     else:
-        r = all(_ground(c) for c in x.children())
-    _gcache[i] = r
-    return r
+        g = all(_ground(c) for c in x.children())
+    _gcache[i] = (x, g)
+    return g
 
 
 def psum_instances(formulas):
@@ -150,6 +152,10 @@ def _has_quant(f):
     return False
 
 
+def quantified_hyps(hyps):
+    return any(_has_quant(h) for h in hyps)
+
+
 def _has_forall(f):
     return _has_quant(f)
 
@@ -188,6 +194,10 @@ def discharge(hyps, goal, watch, timeout_ms=TIMEOUT_MS):
     # second round so that psum terms created by the first round get their bounds by E-matching only; no loop
     s = z3.Solver()
     s.set("timeout", timeout_ms)
+    if quantified_hyps(hyps) and not MBQI:
+        # E-matching only: a failing goal comes back 'unknown' at once instead of after a long model search;
+        # the definite answer then comes from the quantifier-free query below
+        s.set("smt.mbqi", False)
     for h in hyps:
         s.add(h)
     for h in extra:
@@ -233,7 +243,7 @@ def discharge(hyps, goal, watch, timeout_ms=TIMEOUT_MS):
             "detail": "quantified query: %s %s; instantiated query: %s %s" % (first, reason, r2, s2.reason_unknown() if r2 == z3.unknown else "")}
 
 
-def satisfiable(hyps, timeout_ms=3000):
+def satisfiable(hyps, timeout_ms=1500):
     """vacuity canary: 'unsat' means the context is contradictory (every goal would be discharged vacuously)"""
     s = z3.Solver()
     s.set("timeout", timeout_ms)
